@@ -567,6 +567,9 @@ pub fn run(args: &Args, rep: &mut Report) {
         if idx % args.nshards != args.shard {
             return;
         }
+        if rep.over_budget() {
+            return;
+        }
         rep.inc("cases");
         if !c.muts.is_empty() || !c.extras.is_empty() {
             _ = rep.distinct("nontrivial", &serde_json::to_string(&c).unwrap());
